@@ -36,7 +36,7 @@ def strip_comments(t):
 
 # theorem modules per property (lean/RxVerif/Theorems/<name>.lean)
 MODULES = {
-    "C01": ["C01"], "C02": ["C02a", "C02b", "C02c", "C02d", "SimChain", "SimCreate", "SimCreateOps"], "C03": ["C03", "C03RefMerge", "C03RefAmb", "C03RefConcat", "C03RefTakeUntil", "C03RefZip", "C03RefSkipUntil", "C03RefSample", "C03RefFlatMap", "C03RefFlatMapA", "C03RefFlatMapB", "C03RefSwitchOnNext", "C03RefSequenceEqual", "C03RefSeqEqChain", "C03RefSeqEqChain2", "C03RefSeqEqComb", "C03RefSeqEqDone", "C03RefSeqEqDone2", "C03RefSeqEqDone3", "C03RefSeqEqFinal", "C03RefSeqEqGlobal", "C03RefSeqEqLay", "C03RefSeqEqMain", "C03RefSeqEqPath", "C03RefSeqEqSetup", "C03RefSeqEqSetup2", "C03RefSeqEqSetup3", "C03RefSeqEqSetup4", "C03RefSeqEqStep", "C03RefSeqEqTop", "C03RefSeqEqUp", "C03RefSeqEqZip", "C03RefCombineLatest", "C03RefGBase", "C03RefGCtl", "C03RefGSubj", "C03RefGSetup", "C03RefGStatic", "C03RefSetup", "C03RefCtl", "C03RefBase"], "C04": ["C04k", "C04r", "C04Ref", "C04RefResume", "C04RefCor", "C04RefLoop", "C04RefMacro", "C04RefBase"], "C05": ["C05", "C05c", "C05h"], "C06": ["C06", "C06F18", "SimInterval", "Sim", "SimLoop", "SimMacro", "SimBase", "SimChain", "SimChainCancel"], "C07": ["C07"],
+    "C01": ["C01"], "C02": ["C02a", "C02b", "C02c", "C02d", "SimChain", "SimCreate", "SimCreateOps"], "C03": ["C03", "C03RefMerge", "C03RefAmb", "C03RefConcat", "C03RefTakeUntil", "C03RefZip", "C03RefSkipUntil", "C03RefSample", "C03RefFlatMap", "C03RefFlatMapA", "C03RefFlatMapB", "C03RefSwitchOnNext", "C03RefSequenceEqual", "C03RefSeqEqChain", "C03RefSeqEqChain2", "C03RefSeqEqComb", "C03RefSeqEqDone", "C03RefSeqEqDone2", "C03RefSeqEqDone3", "C03RefSeqEqFinal", "C03RefSeqEqGlobal", "C03RefSeqEqLay", "C03RefSeqEqMain", "C03RefSeqEqPath", "C03RefSeqEqSetup", "C03RefSeqEqSetup2", "C03RefSeqEqSetup3", "C03RefSeqEqSetup4", "C03RefSeqEqStep", "C03RefSeqEqTop", "C03RefSeqEqUp", "C03RefSeqEqZip", "C03RefCombineLatest", "C03RefGBase", "C03RefGCtl", "C03RefGSubj", "C03RefGSetup", "C03RefGStatic", "C03RefSetup", "C03RefCtl", "C03RefBase"], "C04": ["C04k", "C04r", "C04Ref", "C04RefResume", "C04RefCor", "C04RefLoop", "C04RefMacro", "C04RefBase"], "C05": ["C05", "C05c", "C05h"], "C06": ["C06", "C06F18", "C06late", "SimInterval", "Sim", "SimLoop", "SimMacro", "SimBase", "SimChain", "SimChainCancel"], "C07": ["C07"],
     "C08": ["C08", "C08D"], "C09": ["C09"], "C10": ["C10", "C10Ref", "C10RefReplay", "C10RefBehavior", "C10RefAsync", "C10RefBase"], "C11": ["C11"], "C12": ["C12", "C12Subject", "C12SubjectA", "C12SubjectB", "C12Replay", "C12ReplayA", "C12ReplayB", "C12Behavior", "C12BehaviorA", "C12BehaviorB", "C12Lists"], "C13": ["C13", "C13Ref", "C13RefAll", "C13RefBase", "C13RefColdAll", "C13RefColdConn", "C13RefColdCore", "C13RefColdCount", "C13RefColdCountCalls", "C13RefColdCountHooks", "C13RefColdCountMain", "C13RefColdLoop", "C13RefColdPublish", "C13RefColdPublishCalls", "C13RefColdPublishMain", "C13RefColdReplay", "C13RefColdReplayCalls", "C13RefColdReplayFam", "C13RefColdReplayFire", "C13RefColdReplayHooks", "C13RefColdReplayHooks2", "C13RefColdReplayMain", "C13RefColdReplayOps", "C13RefColdReplaySub", "C13RefConn", "C13RefCore", "C13RefCount", "C13RefCountCalls", "C13RefCountHooks", "C13RefHot", "C13RefPublish", "C13RefPublishMain", "C13RefReplayCalls", "C13RefReplayCore", "C13RefReplayEmit", "C13RefReplayFam", "C13RefReplayHooks", "C13RefReplayReg", "C13RefReplayRel", "C13RefReplaySub", "C13RefReplayTail", "C13RefReplayUnsub", "C13RefUsers"], "C14": ["C14", "Sim", "SimLoop", "SimMacro", "SimBase", "SimChain"],
     "C15": ["C15"], "C16": ["C16", "SimInterval"], "C17": ["C17", "Sim", "SimLoop", "SimMacro", "SimBase", "C05"], "C18": ["C18"], "C19": ["C19"],
 }
